@@ -16,6 +16,7 @@ structure St where
   nextObj : Nat := 1000              -- objects created by hostInfoFromMap
   ctl : Nat := 0                     -- address the control connection was dialled at
   prevIds : List Nat := []           -- host ids of the ring before the last evrefresh
+  prevObjs : List RHost := []        -- objects of the ring before the last evrefresh
   specRep : List RHost := []         -- the property's reported list of the last evrefresh (local + valid peers)
   tracked : List Nat := []           -- objects reported DOWN by an event and not connected since
 
@@ -104,7 +105,10 @@ def regRows (s : St) (rows : List Row) : St :=
   let n := rows.length
   { s with dcs := (List.range n).zip rows |>.foldl (fun acc (i, r) => (s.nextObj + i, r.dc) :: acc) s.dcs, nextObj := s.nextObj + n }
 
-/-- `ring.addOrUpdate(h)` including `HostInfo.update` of the stored object's address fields; returns the stored object -/
+def setAC (a c : Nat) (h : RHost) (obj : Nat) : RHost := if h.obj == obj then { h with addr := a, caddr := c } else h
+
+/-- `ring.addOrUpdate(h)` including `HostInfo.update` of the stored object's address fields (`View.updateStored`:
+the by-address index follows a changed node address); returns the stored object -/
 def addOrUpdateU (s : St) (h : RHost) : St × View × RHost :=
   let (r, e) := s.v.ring.addOrUpdate h
   let v1 := { s.v with ring := r }
@@ -112,7 +116,8 @@ def addOrUpdateU (s : St) (h : RHost) : St × View × RHost :=
   match lookup s.addrs e.obj, lookup s.addrs h.obj with
   | some ae, some ah =>
     let a' := ae.update ah
-    ({ s with addrs := (e.obj, a') :: erase s.addrs e.obj, objs := s.objs.map (setAC a'.nodeAddr a'.conn · e.obj) }, v1.updateObj e.obj a'.nodeAddr a'.conn, setAC a'.nodeAddr a'.conn e e.obj)
+    ({ s with addrs := (e.obj, a') :: erase s.addrs e.obj, objs := s.objs.map (setAC a'.nodeAddr a'.conn · e.obj) },
+     v1.updateStored e.id a'.nodeAddr a'.conn, { e with addr := a'.nodeAddr, caddr := a'.conn })
   | _, _ => (s, v1, e)
 
 /-- the object a DOWN for address `a` marks down, if the address is known and the host not filtered -/
@@ -128,20 +133,15 @@ def trackBatch (s : St) (b : List Ev) : St :=
 def oracleStr (pfx : String) (l : List Nat) : String :=
   if l.isEmpty then "ok" else pfx ++ ",".intercalate (l.map toString)
 
-def resStr : RefreshResult → String
-  | .ok => "ok" | .errCannotFind => "err:cannot-find-host" | .errAlreadyExists => "err:host-already-exists"
-
 /-- `evrefresh`: refreshRing with these system.local / system.peers contents -/
 def refreshOp (s : St) (rows : String) : St × String :=
   match parseRows rows with
   | [] => (s, "bad-op")
   | loc :: peers =>
-    let s1 := regRows { s with prevIds := s.v.ring.ids, specRep := getHostsSpec loc peers s.nextObj } (loc :: peers)
+    let s1 := regRows { s with prevIds := s.v.ring.ids, prevObjs := s.v.ring.allHosts, specRep := getHostsSpec loc peers s.nextObj } (loc :: peers)
     match getHosts loc peers s.nextObj with
     | none => (s1, "crash:no-address")
-    | some hs =>
-      let (v', res) := s1.v.refresh s1.env hs
-      answer s1 v' (resStr res ++ " ")
+    | some hs => answer s1 (s1.v.refresh s1.env hs) "ok "
 
 /-- ops (every answer ends with the canonical snapshot and `rr=` = a ring refresh was requested by the op)
   reset ev <rr|dc|tarr|tadc> <flags>            fresh dial-free session; flags ⊆ {T,S} (topology / status events disabled) or -
@@ -158,8 +158,10 @@ def refreshOp (s : St) (rows : String) : St × String :=
   evrefreshfail                                 refreshRing while the system queries fail
   evdeb <n> <evs>                               eventDebouncer fed n copies of the first event then the rest: number of frames delivered
   evfollows | evfollowsx                        oracle "the view follows the report" on the state after the last evrefresh
-  evinpolicy | evinpolicyx                      oracle "every node new in the ring is in the policy's fallback lists"
-  evnotoffered                                  oracle "no object reported DOWN (and not connected since) is offered" -/
+  evinpolicy | evinpolicyx                      oracle "every object new in the ring is in the policy's lists"
+  evnotoffered                                  oracle "no object reported DOWN (and not connected since) is offered"
+  evnostale                                     oracle "no by-address entry is stale" (addresses 0..1023)
+  e2eorder <n>                                  n STATUS_CHANGE frames written back to back reach the debouncer in wire order -/
 def step (s : St) (ws : List String) : St × String :=
   let env := s.env
   match ws with
@@ -194,8 +196,9 @@ def step (s : St) (ws : List String) : St × String :=
   | ["evnotoffered"] => (s, if (s.v.offeredObjs s.tracked).isEmpty then "ok" else "offered")
   | ["evfollows"] => (s, oracleStr "violated:" (s.v.followsViolations env s.prevIds s.specRep))
   | ["evfollowsx"] => (s, oracleStr "violated:" (s.v.followsViolations env s.prevIds s.specRep))
-  | ["evinpolicy"] => (s, oracleStr "missing:" (sortBy (fun n : Nat => [n]) (s.v.newNotInPolicy s.prevIds)))
-  | ["evinpolicyx"] => (s, oracleStr "missing:" (sortBy (fun n : Nat => [n]) (s.v.newNotInPolicy s.prevIds)))
+  | ["evinpolicy"] => (s, oracleStr "missing:" (sortBy (fun n : Nat => [n]) (s.v.newNotInPolicy env s.prevObjs)))
+  | ["evinpolicyx"] => (s, oracleStr "missing:" (sortBy (fun n : Nat => [n]) (s.v.newNotInPolicy env s.prevObjs)))
+  | ["evnostale"] => (s, oracleStr "stale:" (s.v.ring.staleAddrs 1023))
   | ["evfail", id] => answer s (s.v.connectFailed env (nat id)) ""
   | ["reset", "evc", pol, flags, ctl, rows] =>
     let s0 := setFlags {} pol flags
@@ -251,11 +254,11 @@ def step (s : St) (ws : List String) : St × String :=
     (match parseRows rows with
     | [] => ({ s0 with v := v1 }, "bad-op")
     | loc :: peers =>
-      let s1 := regRows { s0 with v := v1, prevIds := v1.ring.ids, specRep := getHostsSpec loc peers s0.nextObj } (loc :: peers)
+      let s1 := regRows { s0 with v := v1, prevIds := v1.ring.ids, prevObjs := v1.ring.allHosts, specRep := getHostsSpec loc peers s0.nextObj } (loc :: peers)
       match getHosts loc peers s0.nextObj with
       | none => (s1, "crash:no-address")
       | some hs =>
-        let (v2, _) := s1.v.refresh s1.env hs
+        let v2 := s1.v.refresh s1.env hs
         let v3 := connectAll s1.env v2
         ({ s1 with v := v3 }, "refreshed=1 " ++ snapshotE v3))
   | ["e2efail", b] =>
@@ -275,15 +278,18 @@ def step (s : St) (ws : List String) : St × String :=
       | some l0 =>
         let (s2, v1, e) := addOrUpdateU s1 l0
         let v2 := if s2.env.filter e then v1 else v1.startPoolFill s2.env e
-        let s3 := regRows { s2 with v := v2, prevIds := v2.ring.ids, specRep := getHostsSpec loc peers s2.nextObj } (loc :: peers)
+        let s3 := regRows { s2 with v := v2, prevIds := v2.ring.ids, prevObjs := v2.ring.allHosts, specRep := getHostsSpec loc peers s2.nextObj } (loc :: peers)
         match getHosts loc peers s2.nextObj with
         | none => (s3, "crash:no-address")
         | some hs =>
-          let (v3, _) := s3.v.refresh s3.env hs
+          let v3 := s3.v.refresh s3.env hs
           let v4 := connectAll s3.env v3
           ({ s3 with v := v4 }, "refreshed=1 " ++ snapshotE v4)
   | ["e2ebound"] => (s, "ok")
-  | ["e2eorder", _] => (s, "inorder")   -- what "the last status wins" needs: frames reach the debouncer in wire order
+  | ["e2eorder", n] =>
+    -- n STATUS_CHANGE frames written back to back: the buffer of the node-event debouncer is the wire order (C16_wire_order_last_wins)
+    let wire := (List.range (nat n)).map (fun i => WireFrame.nodeEvent (.status .up (2000 + i)))
+    (s, if recvBuffer wire == wireEvents wire then "inorder" else "reordered")
   | ["evdeb", n, b] =>
     let evs := parseBatch b
     match evs with
